@@ -182,6 +182,51 @@ def r16_2(ctx):
     ctx.floor('R16.2', n, 5)
 
 
+def r16_6(ctx):
+    """What an observation hands out is the caller's to keep: the messages of merged_track / iteration are new objects, never the
+    file's own (with one track as with several) - so that working on a result cannot edit the file behind its back and change
+    what the next observation says.  Also: a (still empty) list given as tracks= IS the file's track list - tracks added to it
+    afterwards are in the file."""
+    ai = smf.make_interp(ctx)
+    cls = ctx.p.cls(MF, 'MidiFile')
+    from ..fold import ClassRef
+    for obs in ('merged_track', '__iter__'):
+        o, fn = ctx.p.lookup_method(cls, obs)
+        if fn is None:
+            continue
+        w = ctx.where(fn)
+        for label, spec, type_ in (('one track, type 0', [[('n', 3, 1), ('n', 0, 2), ('eot', 4, None)]], 0),
+                                   ('one track, type 1', [[('n', 3, 1), ('n', 0, 2)]], 1),
+                                   ('two tracks', [[('n', 3, 1)], [('n', 0, 2), ('eot', 9, None)]], 1)):
+            holder = {}
+
+            def thunk(spec=spec, type_=type_, fn=fn):
+                mf = _mk_file(ctx, ai, spec, type_=type_)
+                holder['own'] = [m for t in mf.attrs['tracks'].items for m in t.items]
+                return ai.consume(ai.call_function(fn, [mf], {}))
+            outs = ai.explore(thunk)
+            ok = len(outs) == 1 and outs[0].kind == 'return' and isinstance(outs[0].value, AList)
+            shared = [x for x in (outs[0].value.items if ok else []) if any(x is m for m in holder.get('own', []))]
+            ctx.require(ok and not shared, 'R16.6', f'{obs}({label}).independent', w,
+                        f'{obs} hands out {len(shared)} message object(s) that are the file\'s own ({outs if not ok else ""}): changing a result changes the file, '
+                        'and the next observation differs although no edit was made', construct=f'{fn.qname}::shares-messages')
+    # MidiFile(tracks=<empty list>) then tracks added through that list
+    o, it = ctx.p.lookup_method(cls, '__iter__')
+    o, init = ctx.p.lookup_method(cls, '__init__')
+
+    def thunk2():
+        lst = AList([], 'list')
+        mf = ai.apply(ClassRef(cls), [], {'tracks': lst}, None)
+        holder['same'] = mf.attrs.get('tracks') is lst
+        lst.items.append(_mk_file(ctx, ai, [[('n', 7, 9)]]).attrs['tracks'].items[0])
+        return _observe(ai, ctx, mf, '__iter__')
+    outs = ai.explore(thunk2)
+    ok = len(outs) == 1 and outs[0].kind == 'return' and any(isinstance(x, tuple) and x[0] == 'note_on' for x in (outs[0].value or []))
+    ctx.require(ok, 'R16.6', 'MidiFile(tracks=[]); tracks.append(track); iterate', ctx.where(init),
+                f'a track added through the (initially empty) list given as tracks= is not in the file: iteration gives {outs[0].value if len(outs) == 1 and outs[0].kind == "return" else outs}',
+                construct=f'{init.qname}::tracks-argument-adopted')
+
+
 def r16_4(ctx):
     """No hidden history in module state either: a module-level table that is a one-shot iterator (generator expression, map,
     filter, zip...) is used up by the first observation that looks at it; the next observation of an unchanged file then sees
@@ -203,4 +248,4 @@ def r16_5(ctx):
     ctx.borrow(c17.r17_4, 'R16.5')
 
 
-RULES = [('R16.1', r16_1), ('R16.2', r16_2), ('R16.3', r16_3), ('R16.4', r16_4), ('R16.5', r16_5)]
+RULES = [('R16.6', r16_6), ('R16.1', r16_1), ('R16.2', r16_2), ('R16.3', r16_3), ('R16.4', r16_4), ('R16.5', r16_5)]
